@@ -129,6 +129,11 @@ def record(ctx, what, kindname, opts, fails_with, wild_res, ld_ok, case, files, 
     option = reduce_opts(opts, fails_with)
     # the output kind and the workload are recorded in the witness, not in the identity: the same
     # accounting defect shows in every kind that has the section
+    # The RELR/RELA parity disagreement is one defect whatever other options happen to be needed to
+    # put a pointer at an odd address in a given program: its identity is the message plus
+    # -z pack-relative-relocs.
+    if "pack-relative-relocs" in option and (msg.startswith("Insufficient .rela.dyn (relative)") or msg.startswith("Insufficient .relr.dyn")):
+        option = "-z pack-relative-relocs"
     sig = f"{msg}:option={option}"
     ctx.note("violations-by-signature:" + sig)
     if not _once.first(sig):
